@@ -7,7 +7,7 @@
      and "pr >= 0, sum pr = 1" give   pr a0 <= 1 - N m + eps,  pr a1 <= N m,  every other pr j <= eps,
      and the matching bounds of the partial sums.
    The section [Atoms] is about an arbitrary probability function on 0..n; the instance for the binomial
-   probabilities of Spec/C06Prob.v is made in Proofs/CheckC06.v.  Axiom-free, over Q. *)
+   probabilities of Spec/C06Prob.v is made in Proofs/CheckC06.v.  No axioms; over Q. *)
 From MM Require Import Base.Num Base.GFSum Base.GFComb Check.C06 Proofs.CheckBase.
 From Coq Require Import Lqa Lia.
 Local Open Scope Q_scope.
